@@ -177,6 +177,13 @@ def worker_main(pid, tier, shard, nshards, seed, outfile):
         n_examples = max(1, budget // nshards) if budget else 0
         if found is None and n_examples:
             found = hypothesis_phase(mod, tier, derive_seed(seed, shard), n_examples, stats, known)
+        # 4. optional extra phase of the property (coverage-guided fuzzing campaigns of C18)
+        if found is None and hasattr(mod, "post_phase"):
+            extra = mod.post_phase(tier, shard, nshards, derive_seed(seed, 1000 + shard), stats)
+            if extra is not None:
+                res, fresh = evaluate(mod, extra["case"], stats, known)
+                if fresh:
+                    found = {"case": extra["case"], "viols": fresh, "phase": extra.get("phase", "post"), "res": res}
     except BaseException as e:  # noqa: B036
         error = "".join(traceback.format_exception(type(e), e, e.__traceback__))[-4000:]
     finally:
